@@ -1052,6 +1052,11 @@ func TestC09(t *testing.T) {
 			Seed   uint64 `json:"seed"`
 			Script *int   `json:"script"`
 		}
+		if err := gojson.Unmarshal(raws[0], &in); err == nil && in.Kind == "cover" {
+			// a sampling coverage run is re-run from its parameters (c09_cover_test.go)
+			coverCases(t, em, raws[0])
+			return
+		}
 		if err := gojson.Unmarshal(raws[0], &in); err != nil || in.Kind != "trace" {
 			t.Fatalf("C09 replays re-run a trace case by seed or script number (kind=%q): %v", in.Kind, err)
 		}
@@ -1083,6 +1088,9 @@ func TestC09(t *testing.T) {
 			em.Emit("gen", map[string]any{"kind": "trace", "seed": s, "trace": tr}, impl)
 		})
 	}
+	// liveness side: fairness of the conditional sampling flow where the sampling ratio cuts the registry, and eventual
+	// report of an eligible upkeep at the registry's tail (c09_cover_test.go)
+	coverCases(t, em, nil)
 }
 
 var _ = types.ConditionTrigger
